@@ -274,6 +274,9 @@ impl Drop for UL {
 pub fn unmanaged_race(prop: &'static str, seed: u64, close: bool) -> RaceOut {
     use deadpool::unmanaged::{Pool as UPool, PoolError as UErr};
     let mut rng = Rng::derive(seed, 0x7acf, close as u64);
+    if !close && !cfg!(miri) && std::env::var_os("VERIF_RACE_SMALL").is_none() && rng.chance(1, 3) {
+        return unmanaged_bounds_race(prop, seed);
+    }
     // half of the rounds are "return-heavy": many threads doing nothing but get + return on a full pool
     let dense = rng.chance(1, 2);
     let small = cfg!(miri) || std::env::var_os("VERIF_RACE_SMALL").is_some();
@@ -407,4 +410,120 @@ pub fn unmanaged_race(prop: &'static str, seed: u64, close: bool) -> RaceOut {
     }
     let desc = format!("unmanaged race close={} threads={} iters={} max={} prefill={} made={} dropped={}", close, threads, iters, max, prefill, made_n, dropped);
     RaceOut { violations: viol, hash: vh_common::fnv1a(desc.as_bytes()), desc: Json::obj().with("engine", "uth_race").with("profile_prop", prop).with("seed", seed).with("case", desc), events: (made_n + dropped) as u64 + (threads * iters) as u64 }
+}
+
+/// Unmanaged pool, non-waiting calls whose outcome is known whatever the interleaving:
+/// * "never empty": G threads do nothing but try_get + return on a pool that holds G + 1 objects, so at
+///   least one object is idle at every instant and try_get can never legitimately report Timeout;
+/// * "never full": the universe has exactly max_size objects; whoever holds one outside the pool
+///   (after try_remove) must be able to try_add it back at once - the pool cannot be full without it.
+/// A further thread keeps asking is_closed() / status(), which must not disturb anybody.
+pub fn unmanaged_bounds_race(prop: &'static str, seed: u64) -> RaceOut {
+    use deadpool::unmanaged::{Pool as UPool, PoolError as UErr};
+    let mut rng = Rng::derive(seed, 0x7ad0, 0);
+    let never_full = rng.chance(1, 2);
+    let g = rng.range(1, 6) as usize;
+    let n = if never_full { rng.range(1, 4) as usize } else { g + 1 };
+    let iters = rng.range(3000, 20000) as usize;
+    let querier = rng.chance(2, 3);
+    let cnt = Arc::new(UCnt { dropped: AtomicUsize::new(0) });
+    let pool: UPool<UL> = UPool::new(n);
+    for _ in 0..n {
+        if pool.try_add(UL(cnt.clone())).is_err() {
+            unreachable!("prefill");
+        }
+    }
+    let stop = Arc::new(AtomicBool::new(false));
+    let calls = Arc::new(AtomicUsize::new(0));
+    let mut hs = Vec::new();
+    for _ in 0..g {
+        let (pool, calls) = (pool.clone(), calls.clone());
+        hs.push(std::thread::spawn(move || -> Result<(), String> {
+            for i in 0..iters {
+                let r = std::panic::catch_unwind(std::panic::AssertUnwindSafe(|| -> Result<(), String> {
+                    if never_full {
+                        match pool.try_remove() {
+                            Ok(o) => match pool.try_add(o) {
+                                Ok(()) => {}
+                                Err((o, e)) => {
+                                    std::mem::forget(o);
+                                    return Err(format!("try_add_refused_with_room: iteration {}: try_add of an object just removed failed with {:?} although the universe has only max_size objects", i, e));
+                                }
+                            },
+                            Err(UErr::Timeout) => {}
+                            Err(e) => return Err(format!("closed_on_open_pool: iteration {}: try_remove on an open pool failed with {:?}", i, e)),
+                        }
+                    } else {
+                        match pool.try_get() {
+                            Ok(o) => drop(o),
+                            Err(e) => return Err(format!("nonblocking_get_failed: iteration {}: try_get failed with {:?} although at least one object is idle at every instant", i, e)),
+                        }
+                    }
+                    Ok(())
+                }));
+                let _ = calls.fetch_add(1, Ordering::Relaxed);
+                match r {
+                    Ok(Ok(())) => {}
+                    Ok(Err(e)) => return Err(e),
+                    Err(p) => return Err(format!("call_panicked: {}", vh_common::panic_message(&*p))),
+                }
+            }
+            Ok(())
+        }));
+    }
+    let q = if querier {
+        let (pool, stop) = (pool.clone(), stop.clone());
+        Some(std::thread::spawn(move || -> Result<u64, String> {
+            let mut k = 0u64;
+            while !stop.load(Ordering::Relaxed) {
+                if pool.is_closed() {
+                    return Err("is_closed_true: is_closed() is true on a pool that was never closed".into());
+                }
+                // status() reads its counters one after the other: nothing can be demanded of it mid-flight,
+                // it only must not disturb the callers
+                let _ = pool.status();
+                k += 1;
+            }
+            Ok(k)
+        }))
+    } else {
+        None
+    };
+    let mut viol: Vec<Violation> = Vec::new();
+    let mut push = |e: String| {
+        let (oracle, msg) = match e.split_once(": ") {
+            Some(("try_add_refused_with_room", m)) => ("try_add_refused_with_room", m.to_string()),
+            Some(("closed_on_open_pool", m)) => ("closed_on_open_pool", m.to_string()),
+            Some(("nonblocking_get_failed", m)) => ("nonblocking_get_failed", m.to_string()),
+            Some(("call_panicked", m)) => ("call_panicked", m.to_string()),
+            Some(("is_closed_true", m)) => ("is_closed_true", m.to_string()),
+            Some(("status_implausible", m)) => ("status_implausible", m.to_string()),
+            _ => ("race_call_failed", e.clone()),
+        };
+        viol.push(Violation { prop, oracle, msg });
+    };
+    for h in hs {
+        match h.join() {
+            Ok(Ok(())) => {}
+            Ok(Err(e)) => push(e),
+            Err(_) => push("race_thread_died: a worker thread died".into()),
+        }
+    }
+    stop.store(true, Ordering::SeqCst);
+    let mut queries = 0;
+    if let Some(q) = q {
+        match q.join() {
+            Ok(Ok(k)) => queries = k,
+            Ok(Err(e)) => push(e),
+            Err(_) => push("race_thread_died: the query thread died".into()),
+        }
+    }
+    // at rest: everything is back inside
+    let st = pool.status();
+    let dropped = cnt.dropped.load(Ordering::SeqCst);
+    if viol.is_empty() && (st.size != n || st.available != n || st.waiting != 0 || dropped != 0) {
+        viol.push(Violation { prop, oracle: "status_at_rest", msg: format!("{} objects, none outside, {} destroyed: status {:?}", n, dropped, st) });
+    }
+    let desc = format!("unmanaged bounds race regime={} threads={} objects={} iters={} querier={} queries={}", if never_full { "never_full" } else { "never_empty" }, g, n, iters, querier, queries);
+    RaceOut { violations: viol, hash: vh_common::fnv1a(desc.as_bytes()), desc: Json::obj().with("engine", "uth_race").with("profile_prop", prop).with("seed", seed).with("case", desc), events: calls.load(Ordering::Relaxed) as u64 + queries }
 }
